@@ -58,6 +58,7 @@ var summaries = map[string]*summary{}
 // the library's named types and their declared methods (for resolving calls through interfaces)
 var typeMethods = map[string]map[string]*types.Func{}
 var implCache = map[string][]string{}
+var unjoined = map[string]bool{}
 var publicType = map[string]bool{}
 
 func namedKey(n *types.Named) string {
@@ -208,6 +209,7 @@ type bodyTr struct {
 	results                []*types.Var
 	resTrk                 []bool
 	addrSlice, derefAssign bool
+	entryMakes             []int                         // class registers of local objects: made on entry
 	paramType              map[int]types.Type            // parameter register -> declared type
 	parent                 map[types.Object]types.Object // may-alias classes of object variables (union-find)
 	clsSize                map[types.Object]int
@@ -647,6 +649,9 @@ func (t *bodyTr) eval(e ast.Expr) int {
 		return base
 	case *ast.UnaryExpr:
 		if e.Op == token.AND {
+			if isBytePtr(t.typeOf(e)) {
+				return t.addrOfByte(e)
+			}
 			return t.eval(e.X)
 		}
 		if e.Op == token.ARROW && kindOf(t.typeOf(e)) != kNone {
@@ -679,6 +684,45 @@ func (t *bodyTr) eval(e ast.Expr) int {
 		return -1
 	}
 	return -1
+}
+
+func isBytePtr(t types.Type) bool {
+	if t == nil {
+		return false
+	}
+	pt, ok := t.Underlying().(*types.Pointer)
+	if !ok {
+		return false
+	}
+	b, ok := pt.Elem().Underlying().(*types.Basic)
+	return ok && b.Kind() == types.Uint8
+}
+
+// addrOfByte: &x with x of type byte: a one-element view of the memory x lives in
+func (t *bodyTr) addrOfByte(e *ast.UnaryExpr) int {
+	x := unparen(e.X)
+	base := -1
+	switch x := x.(type) {
+	case *ast.IndexExpr: // &s[i]
+		t.walk(x.Index)
+		base = t.evalBase(x.X)
+	case *ast.SelectorExpr: // &obj.field
+		if sel, ok := t.p.info.Selections[x]; ok && sel.Kind() == types.FieldVal {
+			base = t.evalBase(x.X)
+		}
+	case *ast.StarExpr: // &*q
+		return t.eval(x.X)
+	case *ast.Ident: // &b with b a byte variable: the function's own memory unless b is a package-level variable
+		if o, ok := t.p.info.ObjectOf(x).(*types.Var); ok && !(o.Pkg() != nil && o.Parent() == o.Pkg().Scope()) {
+			return t.tmpMake(e)
+		}
+	}
+	if base < 0 {
+		return t.tmpOpaque(e)
+	}
+	r := t.newReg("")
+	t.emit(&node{op: "sub", r: r, v: base, pos: -1, line: t.line(e)})
+	return r
 }
 
 // walk evaluates an expression for its effects only.
@@ -929,7 +973,7 @@ func (t *bodyTr) builtin(name string, call *ast.CallExpr) []int {
 		} else if kindOf(t.typeOf(d)) != kNone {
 			dv, sv := t.eval(d), t.eval(s)
 			if dv >= 0 && sv >= 0 {
-				t.emit(&node{op: "store", r: dv, v: sv, pos: -1, why: "ret", line: ln})
+				t.store(dv, sv, call)
 			} else if sv >= 0 {
 				t.emit(&node{op: "escape", v: sv, pos: -1, why: "ret", line: ln})
 			}
@@ -949,6 +993,14 @@ func (t *bodyTr) builtin(name string, call *ast.CallExpr) []int {
 			return []int{t.objTmpMake(call)}
 		}
 		return []int{t.tmpMake(call)}
+	case "panic":
+		// panic(v): whoever recovers gets v
+		for _, a := range call.Args {
+			if v, rel := t.relVal(a); rel {
+				t.emit(&node{op: "escape", v: v, pos: -1, why: "ret", line: ln})
+			}
+		}
+		return []int{-1}
 	case "clear":
 		if isByteElem(t.typeOf(call.Args[0])) {
 			v := t.eval(call.Args[0])
@@ -1055,6 +1107,8 @@ func (t *bodyTr) callArgs(call *ast.CallExpr, sig *types.Signature, recv ast.Exp
 			if v := t.eval(recv); v >= 0 {
 				regs[0] = []int{v}
 			}
+		} else if r := t.ifaceParamReg(recv); r >= 0 {
+			regs[0] = []int{r}
 		} else {
 			t.walk(recv)
 		}
@@ -1201,6 +1255,21 @@ func (t *bodyTr) doCall(call *ast.CallExpr) []int {
 	if tv, ok := t.p.info.Types[fun]; ok && tv.IsType() {
 		return []int{t.conv(call, tv.Type)}
 	}
+	if sel, ok := fun.(*ast.SelectorExpr); ok {
+		if b, ok := t.p.info.Uses[sel.Sel].(*types.Builtin); ok {
+			// unsafe.String / unsafe.Slice / unsafe.SliceData / unsafe.Add ...: memory the analysis cannot follow
+			t.fail("uses unsafe.%s (line %d)", b.Name(), ln)
+			n := 1
+			if tup, ok := t.typeOf(call).(*types.Tuple); ok {
+				n = tup.Len()
+			}
+			out := make([]int, n)
+			for i := range out {
+				out[i] = -1
+			}
+			return out
+		}
+	}
 	if id, ok := fun.(*ast.Ident); ok {
 		if b, ok := t.p.info.Uses[id].(*types.Builtin); ok {
 			return t.builtin(b.Name(), call)
@@ -1248,6 +1317,10 @@ func (t *bodyTr) doCall(call *ast.CallExpr) []int {
 		if bc {
 			t.fail("call through a function value with byte arguments or results (line %d)", ln)
 		}
+		return out
+	}
+	if fn.Pkg() != nil && fn.Pkg().Path() == "unsafe" {
+		t.fail("uses package unsafe (line %d)", ln)
 		return out
 	}
 	sig, _ := fn.Type().(*types.Signature)
@@ -1412,6 +1485,93 @@ func (t *bodyTr) doCall(call *ast.CallExpr) []int {
 			return args[i][0]
 		}
 		return -1
+	}
+	// A method of a STANDARD-LIBRARY interface (io.Writer, io.Reader ...) may be implemented by a library type:
+	// the call then also does what those implementations do (their summaries, joined); likewise a standard
+	// function that calls such a method on one of its arguments (io.ReadFull, io.Copy: `m` entries of the table).
+	join := func(recvT types.Type, method string, remap func(calleeParam int) []int, np int) {
+		keys := implementers(recvT, method)
+		mut, keep := make([]bool, np), make([]bool, np)
+		stores := make([]uint64, np)
+		cargs := make([][]int, np)
+		for i := range cargs {
+			cargs[i] = remap(i)
+		}
+		var libKeys []string
+		for _, k := range keys {
+			sm := summaries[k]
+			if sm == nil {
+				continue
+			}
+			if sm.untr != "" {
+				// an untranslated library implementation of a STANDARD-LIBRARY interface method: for it the
+				// call is judged by the trusted table alone; the pair is listed in the emitted table
+				unjoined[shortKey(k)+" as "+method] = true
+				continue
+			}
+			libKeys = append(libKeys, k)
+			for i := 0; i < np && i < len(sm.mut); i++ {
+				mut[i] = mut[i] || sm.mut[i]
+				keep[i] = keep[i] || sm.keep[i]
+				if i < len(sm.stores) {
+					stores[i] |= sm.stores[i]
+				}
+			}
+		}
+		if len(libKeys) > 0 {
+			// What such an implementation does to ITS OWN receiver memory (a stream object filling its buffers)
+			// is not attributed to the object at hand, which need not be one of them (the reader hkdf.New gives,
+			// a bytes.Buffer ...); what it does to the ARGUMENTS is.  If it stores an argument into its receiver
+			// and the receiver has no register here, the argument escapes.
+			mut[0], keep[0] = false, false
+			if len(cargs[0]) == 0 && stores[0] != 0 {
+				for q := 1; q < np && q < 61; q++ {
+					if stores[0]&(1<<uint(q)) != 0 {
+						keep[q] = true
+					}
+				}
+				stores[0] = 0
+			}
+			libEff := t.sub(func() { t.applyEffects(call, cargs, mut, keep, stores) })
+			rec := append([][]int{nil}, cargs[1:]...) // the record speaks for the arguments, not for the receiver
+			t.emit(&node{op: "call", callees: libKeys, cargs: rec, kids: []*node{libEff}, pos: -1, line: ln})
+		}
+	}
+	if iface != nil {
+		join(iface, fn.Name(), func(i int) []int {
+			if i < len(args) {
+				return args[i]
+			}
+			return nil
+		}, len(args))
+	}
+	for _, m := range eff.calls {
+		// m = {argument holding the interface value, method, parameter of the method, argument it receives}
+		m := m
+		if m.iarg >= sig.Params().Len() {
+			continue
+		}
+		base := 0
+		if sig.Recv() != nil {
+			base = 1
+		}
+		pt := sig.Params().At(m.iarg).Type()
+		if !types.IsInterface(pt) {
+			continue
+		}
+		join(pt, m.method, func(i int) []int {
+			switch i {
+			case 0:
+				if base+m.iarg < len(args) {
+					return args[base+m.iarg]
+				}
+			case m.param:
+				if base+m.target < len(args) {
+					return args[base+m.target]
+				}
+			}
+			return nil
+		}, m.param+1)
 	}
 	for _, w := range eff.writes {
 		if w < len(args) {
